@@ -75,6 +75,14 @@ func iterInts(it *IterDyn, val bool) (fwd, bwd []int) {
 
 func treadmillAdapter(c string, j Job) *tmAdapter {
 	p := func(props ...string) []string { return props }
+	// every observer is compared; a disagreement that does not concern the property being decided does not
+	// end the observation (the structural oracles further down may concern it)
+	keep := func(v *Viol) *Viol {
+		if v.Has(j.Prop) {
+			return v
+		}
+		return nil
+	}
 	switch c {
 	case "rbt", "avl", "btree", "treemap", "hashmap", "linkedhashmap":
 		jj := j
@@ -91,14 +99,18 @@ func treadmillAdapter(c string, j Job) *tmAdapter {
 					sort.Sort(sort.Reverse(sort.IntSlice(want)))
 				}
 				if a.size() != len(live) {
-					return viol(p("C01", "C15"), "mismatch", "Size() = %d, %d keys are live", a.size(), len(live))
+					if x := keep(viol(p("C01", "C15"), "mismatch", "Size() = %d, %d keys are live", a.size(), len(live))); x != nil {
+						return x
+					}
 				}
 				keys := a.keys()
 				if c == "hashmap" {
 					sort.Ints(keys)
 				}
 				if !seqEq(keys, want) {
-					return viol(p("C01", "C02", "C09"), "mismatch", "Keys() = %v, live keys %v", keys, want)
+					if x := keep(viol(p("C01", "C02", "C09"), "mismatch", "Keys() = %v, live keys %v", keys, want)); x != nil {
+						return x
+					}
 				}
 				vals := a.values()
 				vi := make([]int, len(vals))
@@ -109,39 +121,51 @@ func treadmillAdapter(c string, j Job) *tmAdapter {
 					sort.Ints(vi)
 				}
 				if !seqEq(vi, want) {
-					return viol(p("C01", "C02", "C09"), "mismatch", "Values() = %v (as keys: %v), live keys %v", vals, vi, want)
+					if x := keep(viol(p("C01", "C02", "C09"), "mismatch", "Values() = %v (as keys: %v), live keys %v", vals, vi, want)); x != nil {
+						return x
+					}
 				}
 				for _, k := range live {
 					if v, ok := a.get(k); !ok || int(v) != k*10 {
-						return viol(p("C01"), "mismatch", "Get(%d) = (%v, %v), the key is live with value %d", k, v, ok, k*10)
+						if x := keep(viol(p("C01"), "mismatch", "Get(%d) = (%v, %v), the key is live with value %d", k, v, ok, k*10)); x != nil {
+							return x
+						}
 					}
 				}
 				if a.iter != nil {
 					fwd, bwd := iterInts(a.iter(), false)
 					if !seqEq(fwd, want) || !seqEq(bwd, want) {
-						return viol(p("C02", "C08", "C09"), "mismatch", "iteration forward %v, backward (reversed) %v, live keys %v", fwd, bwd, want)
+						if x := keep(viol(p("C02", "C08", "C09"), "mismatch", "iteration forward %v, backward (reversed) %v, live keys %v", fwd, bwd, want)); x != nil {
+							return x
+						}
 					}
 				}
 				if a.min != nil && len(live) > 0 {
 					k1, _, ok1 := a.min()
 					k2, _, ok2 := a.max()
 					if !ok1 || !ok2 || k1 != want[0] || k2 != want[len(want)-1] {
-						return viol(p("C02"), "mismatch", "Min/Max = %v/%v, live keys %v", k1, k2, want)
+						if x := keep(viol(p("C02"), "mismatch", "Min/Max = %v/%v, live keys %v", k1, k2, want)); x != nil {
+							return x
+						}
 					}
 				}
 				if a.shape != nil {
-					if v := a.shape(); v != nil {
+					if v := a.shape(); v != nil && keep(v) != nil {
 						return v
 					}
 				}
 				if a.walk != nil {
 					if w := a.walk(); len(w) != len(live) {
-						return viol(p("C01", "C07"), "invariant", "walking the exported structure finds %d bindings, %d keys are live", len(w), len(live))
+						if x := keep(viol(p("C01", "C07"), "invariant", "walking the exported structure finds %d bindings, %d keys are live", len(w), len(live))); x != nil {
+							return x
+						}
 					}
 				}
 				for _, k := range []int{live[0] - 1, future} { // look-ups that miss
 					if v, ok := a.get(k); ok {
-						return viol(p("C01"), "mismatch", "Get(%d) = (%v, true) for an absent key", k, v)
+						if x := keep(viol(p("C01"), "mismatch", "Get(%d) = (%v, true) for an absent key", k, v)); x != nil {
+							return x
+						}
 					}
 				}
 				return nil
@@ -156,7 +180,9 @@ func treadmillAdapter(c string, j Job) *tmAdapter {
 		return &tmAdapter{name: sys.Name(), ins: func(k int) { a.put(k, -k) }, del: func(k int) { a.remove(k) },
 			observe: func(live []int, future int) *Viol {
 				if a.size() != len(live) {
-					return viol(p("C10", "C01", "C15"), "mismatch", "Size() = %d, %d pairs are live", a.size(), len(live))
+					if x := keep(viol(p("C10", "C01", "C15"), "mismatch", "Size() = %d, %d pairs are live", a.size(), len(live))); x != nil {
+						return x
+					}
 				}
 				keys, vals := a.keys(), a.values()
 				sort.Ints(keys)
@@ -166,21 +192,29 @@ func treadmillAdapter(c string, j Job) *tmAdapter {
 				}
 				sort.Ints(neg)
 				if !seqEq(keys, live) || !seqEq(neg, live) {
-					return viol(p("C10", "C01"), "mismatch", "Keys() = %v, Values() = %v, live pairs are (k, -k) for k in %v", keys, vals, live)
+					if x := keep(viol(p("C10", "C01"), "mismatch", "Keys() = %v, Values() = %v, live pairs are (k, -k) for k in %v", keys, vals, live)); x != nil {
+						return x
+					}
 				}
 				for _, k := range live {
 					v, ok := a.get(k)
 					k2, ok2 := a.getKey(-k)
 					if !ok || v != -k || !ok2 || k2 != k {
-						return viol(p("C10"), "mismatch", "Get(%d) = (%v, %v), GetKey(%d) = (%v, %v) for the live pair (%d, %d)", k, v, ok, -k, k2, ok2, k, -k)
+						if x := keep(viol(p("C10"), "mismatch", "Get(%d) = (%v, %v), GetKey(%d) = (%v, %v) for the live pair (%d, %d)", k, v, ok, -k, k2, ok2, k, -k)); x != nil {
+							return x
+						}
 					}
 				}
 				for _, k := range []int{live[0] - 1, future} {
 					if _, ok := a.get(k); ok {
-						return viol(p("C10", "C01"), "mismatch", "Get(%d) finds an absent key", k)
+						if x := keep(viol(p("C10", "C01"), "mismatch", "Get(%d) finds an absent key", k)); x != nil {
+							return x
+						}
 					}
 					if _, ok := a.getKey(-k); ok {
-						return viol(p("C10"), "mismatch", "GetKey(%d) finds a displaced / absent value", -k)
+						if x := keep(viol(p("C10"), "mismatch", "GetKey(%d) finds a displaced / absent value", -k)); x != nil {
+							return x
+						}
 					}
 				}
 				return nil
@@ -191,29 +225,39 @@ func treadmillAdapter(c string, j Job) *tmAdapter {
 		return &tmAdapter{name: sys.Name(), ins: func(k int) { a.add(k) }, del: func(k int) { a.remove(k) },
 			observe: func(live []int, future int) *Viol {
 				if a.size() != len(live) {
-					return viol(p("C04", "C15"), "mismatch", "Size() = %d, %d members", a.size(), len(live))
+					if x := keep(viol(p("C04", "C15"), "mismatch", "Size() = %d, %d members", a.size(), len(live))); x != nil {
+						return x
+					}
 				}
 				vals := a.values()
 				if c == "hashset" {
 					sort.Ints(vals)
 				}
 				if !seqEq(vals, live) {
-					return viol(p("C04", "C09", "C02"), "mismatch", "Values() = %v, members %v", vals, live)
+					if x := keep(viol(p("C04", "C09", "C02"), "mismatch", "Values() = %v, members %v", vals, live)); x != nil {
+						return x
+					}
 				}
 				if !a.contains(live...) || a.contains(future) || a.contains(live[0]-1) {
-					return viol(p("C04"), "mismatch", "Contains disagrees with the members %v", live)
+					if x := keep(viol(p("C04"), "mismatch", "Contains disagrees with the members %v", live)); x != nil {
+						return x
+					}
 				}
 				if a.iter != nil {
 					fwd, bwd := iterInts(a.iter(), true)
 					if !seqEq(fwd, live) || !seqEq(bwd, live) {
-						return viol(p("C04", "C08", "C09"), "mismatch", "iteration forward %v, backward (reversed) %v, members %v", fwd, bwd, live)
+						if x := keep(viol(p("C04", "C08", "C09"), "mismatch", "iteration forward %v, backward (reversed) %v, members %v", fwd, bwd, live)); x != nil {
+							return x
+						}
 					}
 				}
 				e := sys.newAPI()
 				for what, got := range map[string][]int{"Union(empty)": a.union(e).values(), "Difference(empty)": a.diff(e).values(), "Intersection(itself)": a.inter(a).values()} {
 					sort.Ints(got)
 					if !seqEq(got, live) {
-						return viol(p("C13", "C04"), "mismatch", "%s = %v, members %v", what, got, live)
+						if x := keep(viol(p("C13", "C04"), "mismatch", "%s = %v, members %v", what, got, live)); x != nil {
+							return x
+						}
 					}
 				}
 				return nil
@@ -225,10 +269,14 @@ func treadmillAdapter(c string, j Job) *tmAdapter {
 		return &tmAdapter{name: sys.Name(), ins: func(k int) { a.push(k) }, del: func(k int) { a.pop() },
 			observe: func(live []int, future int) *Viol {
 				if a.size() != len(live) {
-					return viol(p("C06", "C15"), "mismatch", "Size() = %d, %d elements", a.size(), len(live))
+					if x := keep(viol(p("C06", "C15"), "mismatch", "Size() = %d, %d elements", a.size(), len(live))); x != nil {
+						return x
+					}
 				}
 				if v, ok := a.peek(); !ok || v != live[0] {
-					return viol(p("C06"), "mismatch", "Peek() = (%v, %v), the least element is %d", v, ok, live[0])
+					if x := keep(viol(p("C06"), "mismatch", "Peek() = (%v, %v), the least element is %d", v, ok, live[0])); x != nil {
+						return x
+					}
 				}
 				vals := a.values()
 				first := -1
@@ -237,13 +285,17 @@ func treadmillAdapter(c string, j Job) *tmAdapter {
 				}
 				sort.Ints(vals)
 				if !seqEq(vals, live) || first != live[0] {
-					return viol(p("C06"), "mismatch", "Values() = %v (first %d) is not a permutation of the contents %v headed by the least", vals, first, live)
+					if x := keep(viol(p("C06"), "mismatch", "Values() = %v (first %d) is not a permutation of the contents %v headed by the least", vals, first, live)); x != nil {
+						return x
+					}
 				}
 				fwd, bwd := iterInts(a.iter(), true)
 				sort.Ints(fwd)
 				sort.Ints(bwd)
 				if !seqEq(fwd, live) || !seqEq(bwd, live) {
-					return viol(p("C06", "C08"), "mismatch", "iteration yields %v / %v, contents %v", fwd, bwd, live)
+					if x := keep(viol(p("C06", "C08"), "mismatch", "iteration yields %v / %v, contents %v", fwd, bwd, live)); x != nil {
+						return x
+					}
 				}
 				return nil
 			}}
@@ -254,19 +306,27 @@ func treadmillAdapter(c string, j Job) *tmAdapter {
 			observe: func(live []int, future int) *Viol {
 				vals := a.values()
 				if a.size() != len(live) || !seqEq(vals, live) {
-					return viol(p("C03", "C15"), "mismatch", "Size() = %d, Values() = %v, abstract sequence %v", a.size(), vals, live)
+					if x := keep(viol(p("C03", "C15"), "mismatch", "Size() = %d, Values() = %v, abstract sequence %v", a.size(), vals, live)); x != nil {
+						return x
+					}
 				}
 				for i, k := range live {
 					if v, ok := a.get(i); !ok || v != k || a.indexOf(k) != i {
-						return viol(p("C03"), "mismatch", "Get(%d) = (%v, %v), IndexOf(%d) = %d, abstract sequence %v", i, v, ok, k, a.indexOf(k), live)
+						if x := keep(viol(p("C03"), "mismatch", "Get(%d) = (%v, %v), IndexOf(%d) = %d, abstract sequence %v", i, v, ok, k, a.indexOf(k), live)); x != nil {
+							return x
+						}
 					}
 				}
 				if a.indexOf(future) != -1 || a.contains(future) || !a.contains(live...) {
-					return viol(p("C03"), "mismatch", "IndexOf / Contains disagree with the abstract sequence %v", live)
+					if x := keep(viol(p("C03"), "mismatch", "IndexOf / Contains disagree with the abstract sequence %v", live)); x != nil {
+						return x
+					}
 				}
 				fwd, bwd := iterInts(a.iter(), true)
 				if !seqEq(fwd, live) || !seqEq(bwd, live) {
-					return viol(p("C03", "C08"), "mismatch", "iteration forward %v, backward (reversed) %v, abstract sequence %v", fwd, bwd, live)
+					if x := keep(viol(p("C03", "C08"), "mismatch", "iteration forward %v, backward (reversed) %v, abstract sequence %v", fwd, bwd, live)); x != nil {
+						return x
+					}
 				}
 				return nil
 			}}
@@ -277,14 +337,20 @@ func treadmillAdapter(c string, j Job) *tmAdapter {
 			observe: func(live []int, future int) *Viol {
 				vals := a.values()
 				if a.size() != len(live) || !seqEq(vals, live) {
-					return viol(p("C05", "C15"), "mismatch", "Size() = %d, Values() = %v, the queue holds %v", a.size(), vals, live)
+					if x := keep(viol(p("C05", "C15"), "mismatch", "Size() = %d, Values() = %v, the queue holds %v", a.size(), vals, live)); x != nil {
+						return x
+					}
 				}
 				if v, ok := a.peek(); !ok || v != live[0] {
-					return viol(p("C05"), "mismatch", "Peek() = (%v, %v), the oldest element is %d", v, ok, live[0])
+					if x := keep(viol(p("C05"), "mismatch", "Peek() = (%v, %v), the oldest element is %d", v, ok, live[0])); x != nil {
+						return x
+					}
 				}
 				fwd, bwd := iterInts(a.iter(), true)
 				if !seqEq(fwd, live) || !seqEq(bwd, live) {
-					return viol(p("C05", "C08"), "mismatch", "iteration forward %v, backward (reversed) %v, the queue holds %v", fwd, bwd, live)
+					if x := keep(viol(p("C05", "C08"), "mismatch", "iteration forward %v, backward (reversed) %v, the queue holds %v", fwd, bwd, live)); x != nil {
+						return x
+					}
 				}
 				return nil
 			}}
@@ -384,6 +450,15 @@ func treadmillJob(j Job, r *JobResult) {
 			return
 		}
 		for rep := 0; rep < 2 && !fail; rep++ { // twice: after the first pass every stamp has been set at least once
+			if rep == 1 {
+				// one extra modification: the second pass starts with the other parity (an odd gap now ENDS with
+				// an insertion - the one whose key the preceding observation looked up and missed)
+				mod()
+				if observe(1, gaps[0]) {
+					fail = true
+					return
+				}
+			}
 			for i, g := range gaps {
 				for k := 0; k < g; k++ {
 					mod()
